@@ -6,6 +6,7 @@ import Rare.Proofs.C09Frag
 import Rare.Proofs.C09Lookup
 import Rare.Proofs.C09Gen
 import Rare.Proofs.C09Err
+import Rare.Proofs.C09WF
 import Rare.Gen.Tables
 /-!
 Property C09 – template syntax: literals, escapes, quotes and nesting parse as documented.
@@ -358,6 +359,62 @@ theorem parser_skeleton_matches_source :
     Gen.C09.simpleVariable = ["strconv.Atoi(s)", "err != nil", "context.GetKey(s)", "context.GetMatch(index)"] :=
   ⟨unescape_gen, by decide, by decide, by decide, argConds_gen, by decide, by decide⟩
 
+/-! ### Syntax errors, for ALL templates -/
+
+/-- **`Compile` reports a syntax error iff the template is not well formed – for every template.**
+    `WellFormed split known t` (`Spec/C09WF.lean`, no reference to `Compile`) is the grammar "every `{` is closed
+    (escapes respected); every statement has at least one argument; a statement with several arguments starts
+    with a known function name and each further argument is, recursively, a well-formed template" – arguments
+    being what the splitter makes of the statement's text (`split_spec` says what that is on laid-out lists;
+    `splitter_matches_source` that it is the source's state machine).  For EVERY template (any text: stray and
+    quoted braces, escapes at any level, unbalanced quotes, invalid UTF-8 already decoded), every registry,
+    optimiser on or off: whenever `Compile` returns (no builder panicked), its error list is free of
+    `ErrorUnterminated` / `ErrorEmptyStatement` / `ErrorMissingFunction` – at every nesting level, inherited errors
+    included – IFF the template is well formed w.r.t. the registered names.  So all three clauses of the property
+    hold in both directions: each such defect anywhere in a compiled position is reported, and nothing else is
+    reported as one.  (Errors of a function builder itself – arity, argument type – are `.func` and are the
+    builders' business: C08/C11.  Arguments of an unknown function are not compiled, so defects inside them are
+    not reported separately – `WellFormed` does not look there either.) -/
+theorem compile_ok_iff_wellformed (reg : Registry) (opt : Bool) (t : List Char) (stages : List Stage)
+    (errs : List CErr) (h : compile reg opt t = .ok (stages, errs)) :
+    (∀ e ∈ errs, e.kind ≠ .unterminated ∧ e.kind ≠ .emptyStatement ∧ e.kind ≠ .missingFunction) ↔
+      WellFormed splitArgs (fun name => (reg name).isSome) t := by
+  have hw : SynFree errs ↔ WellFormed splitArgs (fun name => (reg name).isSome) t :=
+    compileF_wf reg opt (t.length + 1) t (by omega) _ (by omega) stages errs h
+  rw [← hw]
+  constructor
+  · intro hh e he
+    obtain ⟨h1, h2, h3⟩ := hh e he
+    cases hk : e.kind <;> simp_all [syntactic]
+  · intro hh e he
+    have := hh e he
+    cases hk : e.kind <;> simp_all [syntactic]
+
+/-- …equivalently: some syntax error is reported iff the template is malformed. -/
+theorem syntax_error_iff_malformed (reg : Registry) (opt : Bool) (t : List Char) (stages : List Stage)
+    (errs : List CErr) (h : compile reg opt t = .ok (stages, errs)) :
+    (∃ e ∈ errs, e.kind = .unterminated ∨ e.kind = .emptyStatement ∨ e.kind = .missingFunction) ↔
+      ¬ WellFormed splitArgs (fun name => (reg name).isSome) t := by
+  rw [← compile_ok_iff_wellformed reg opt t stages errs h]
+  constructor
+  · rintro ⟨e, he, hk⟩ hall
+    obtain ⟨h1, h2, h3⟩ := hall e he
+    rcases hk with hk | hk | hk <;> contradiction
+  · intro hn
+    apply Classical.byContradiction
+    intro hne
+    apply hn
+    intro e he
+    refine ⟨fun hk => hne ⟨e, he, Or.inl hk⟩, fun hk => hne ⟨e, he, Or.inr (Or.inl hk)⟩,
+      fun hk => hne ⟨e, he, Or.inr (Or.inr hk)⟩⟩
+
+/-- Every printed tree is a well-formed template (the documented grammar lies inside `WellFormed`). -/
+theorem printed_tree_wellformed (reg : Registry) (fn : List Char → List Bytes → Bytes) (σ : Style) (e : C09.Expr)
+    (ha : AdmissibleTop e) (hreg : RegSem reg fn e) :
+    WellFormed splitArgs (fun name => (reg name).isSome) (printTop σ e) := by
+  obtain ⟨st, h, _⟩ := print_compile reg fn false σ e ha hreg
+  exact (compile_ok_iff_wellformed reg false _ st [] h).mp (fun e he => by cases he)
+
 /-! ### errors.go: what the user sees -/
 
 /-- The texts of the model's error rendering are the source's: the three sentinel messages, the format of
@@ -600,5 +657,53 @@ example : compileError (fun t => t) (ascii "{nofn x}{")
       [⟨.missingFunction, "nofn x".toList, 0⟩, ⟨.unterminated, "{".toList, 8⟩] =
     some (ascii "Compiler Errors in: `{nofn x}{`\n  At `nofn x` (0): missing function\n  At `{` (8): non-terminated statement in expression\n") := by
   decide +kernel
+
+/-- `{a {0} "x y"}` is well formed when `a` is known … -/
+example : WellFormed splitArgs (fun n => n == ['a']) "{a {0} \"x y\"}".toList := by
+  refine .mk _ (by decide) fun b hb => ?_
+  have hb' : b = "a {0} \"x y\"".toList := by
+    have : bodies "{a {0} \"x y\"}".toList = ["a {0} \"x y\"".toList] := by decide
+    rw [this] at hb; simpa using hb
+  subst hb'
+  refine .call _ ['a'] "{0}".toList ["x y".toList] (by decide) rfl fun a ha => ?_
+  have ha' : a = "{0}".toList ∨ a = "x y".toList := by simpa using ha
+  rcases ha' with rfl | rfl
+  · refine .mk _ (by decide) fun b hb => ?_
+    have : bodies "{0}".toList = [['0']] := by decide
+    rw [this] at hb
+    have : b = ['0'] := by simpa using hb
+    subst this
+    exact .lone _ ['0'] (by decide)
+  · refine .mk _ (by decide) fun b hb => ?_
+    have : bodies "x y".toList = [] := by decide
+    rw [this] at hb; cases hb
+/-- … `{a {}}` is not (an empty statement one level down), nor `{nofn x}` (unknown function), nor `{a` (unterminated). -/
+example : ¬ WellFormed splitArgs (fun n => n == ['a']) "{a {}}".toList := by
+  intro h
+  cases h with
+  | mk _ _ h2 =>
+    have hs : splitArgs "a {}".toList = [['a'], "{}".toList] := by decide
+    cases h2 "a {}".toList (by decide) with
+    | lone _ a h => rw [hs] at h; cases h
+    | call _ n x xs h _ hall =>
+      rw [hs] at h; cases h
+      cases hall "{}".toList (by simp) with
+      | mk _ _ h3 =>
+        have hs' : splitArgs ([] : List Char) = [] := by decide
+        cases h3 [] (by decide) with
+        | lone _ a h => rw [hs'] at h; cases h
+        | call _ n x xs h => rw [hs'] at h; cases h
+example : ¬ WellFormed splitArgs (fun n => n == ['a']) "{nofn x}".toList := by
+  intro h
+  cases h with
+  | mk _ _ h2 =>
+    have hs : splitArgs "nofn x".toList = ["nofn".toList, ['x']] := by decide
+    cases h2 "nofn x".toList (by decide) with
+    | lone _ a h => rw [hs] at h; cases h
+    | call _ n x xs h hk => rw [hs] at h; cases h; revert hk; decide
+example : ¬ WellFormed splitArgs (fun n => n == ['a']) "{a".toList := by
+  intro h
+  cases h with
+  | mk _ h1 _ => revert h1; decide
 
 end Rare.C09
